@@ -75,19 +75,29 @@ Proof.
     rewrite skipz_1_cons. rewrite IH by (cbn [length] in Hl; lia). cbn [rbind]. rewrite len_cons. reflexivity.
 Qed.
 
-Lemma regexp_tok_lit body flags r0 rest : re_body false body ->
-  Forall (fun c => tab_cont c = true) flags -> tab_cont r0 = false -> r0 < 192 ->
+(* the flags loop consumes exactly flags in front of r0 :: rest *)
+Definition flags_run (flags : list Z) (r0 : Z) (rest : list Z) : Prop :=
+  forall fuel, (length flags < fuel)%nat -> rep (re_flag1 id_cont) fuel (flags ++ r0 :: rest) = Ok (len flags).
+
+Lemma regexp_tok_lit_gen body flags r0 rest : re_body false body -> flags_run flags r0 rest ->
   regexp_tok id_cont (47 :: body ++ 47 :: flags ++ r0 :: rest) = Ok (len (47 :: body ++ 47 :: flags), true).
 Proof.
-  intros Hb Hf Hr0 Hr1. unfold regexp_tok. rewrite skipz_1_cons.
+  intros Hb Hf. unfold regexp_tok. rewrite skipz_1_cons.
   rewrite (re_loop_body false body Hb) by (cbn [length]; rewrite app_length; lia). cbn [rbind].
   replace (skipz (1 + (len body + 1)) (47 :: body ++ 47 :: flags ++ r0 :: rest)) with (flags ++ r0 :: rest).
   2:{ assert (E : 47 :: body ++ 47 :: flags ++ r0 :: rest = (47 :: body ++ [47]) ++ flags ++ r0 :: rest)
         by (cbn [app]; rewrite <- app_assoc; reflexivity).
       rewrite E. replace (1 + (len body + 1)) with (len (47 :: body ++ [47])) by (rewrite len_cons, len_app; reflexivity).
       symmetry. apply skipz_app_exact. }
-  unfold repl. rewrite flags_loop; try assumption; [|rewrite app_length; cbn [length]; lia]. cbn [rbind].
+  unfold repl. rewrite Hf; [|rewrite app_length; cbn [length]; lia]. cbn [rbind].
   f_equal. f_equal. rewrite !len_cons, !len_app, !len_cons. lia.
+Qed.
+
+Lemma regexp_tok_lit body flags r0 rest : re_body false body ->
+  Forall (fun c => tab_cont c = true) flags -> tab_cont r0 = false -> r0 < 192 ->
+  regexp_tok id_cont (47 :: body ++ 47 :: flags ++ r0 :: rest) = Ok (len (47 :: body ++ 47 :: flags), true).
+Proof.
+  intros Hb Hf Hr0 Hr1. apply regexp_tok_lit_gen; [assumption|]. intros fuel Hl. apply flags_loop; assumption.
 Qed.
 
 Definition re_lit (body flags : list Z) : list Z := 47 :: body ++ 47 :: flags.
@@ -120,8 +130,8 @@ Qed.
 
 (* RegExp() with the cursor k bytes after the '/' that starts the literal: k = 1 after a '/' token,
    k = 2 after a '/=' token *)
-Lemma regexp_at pre body flags r0 rest0 s k :
-  re_body false body -> Forall (fun c => tab_cont c = true) flags -> tab_cont r0 = false -> r0 < 192 ->
+Lemma regexp_at_gen pre body flags r0 rest0 s k :
+  re_body false body -> flags_run flags r0 rest0 ->
   wfl (r0 :: rest0) ->
   lbuf (jcur s) = pre ++ re_lit body flags ++ r0 :: rest0 ->
   lpos (jcur s) = len pre + k -> k = 1 \/ (k = 2 /\ exists body', body = 61 :: body') ->
@@ -129,7 +139,7 @@ Lemma regexp_at pre body flags r0 rest0 s k :
     lpos (jcur s2) = len pre + len (re_lit body flags) /\ lstart (jcur s2) = lpos (jcur s2) /\
     lbuf (jcur s2) = lbuf (jcur s).
 Proof.
-  intros Hb Hf Hr0 Hr1 Hwr Hbuf Hpos Hk. destruct s as [z e0 plt0 pnl0 lev tl]. cbn [jcur] in *.
+  intros Hb Hf Hwr Hbuf Hpos Hk. destruct s as [z e0 plt0 pnl0 lev tl]. cbn [jcur] in *.
   set (lit := re_lit body flags) in *.
   assert (Hlit : 2 <= len lit) by (unfold lit, re_lit; rewrite len_cons, len_app, len_cons; pose proof (len_nonneg body); pose proof (len_nonneg flags); lia).
   pose proof (len_nonneg pre) as Hpre.
@@ -146,7 +156,7 @@ Proof.
     { unfold suffix, z2, skip, mv. cbn [lbuf lpos]. rewrite Hbuf. replace (lpos z + - k) with (len pre) by lia.
       apply skipz_app_exact. }
     rewrite Hs2. unfold lit, re_lit. cbn [app]. rewrite <- app_assoc. cbn [app].
-    rewrite (regexp_tok_lit body flags r0 rest0 Hb Hf Hr0 Hr1). cbn [rbind].
+    rewrite (regexp_tok_lit_gen body flags r0 rest0 Hb Hf). cbn [rbind].
     fold (re_lit body flags). fold lit.
     unfold emit, shift, lexeme.
     assert (Hz3 : lbuf (mv z2 (len lit)) = pre ++ lit ++ r0 :: rest0 /\ lstart (mv z2 (len lit)) = len pre /\ lpos (mv z2 (len lit)) = len pre + len lit).
@@ -170,6 +180,18 @@ Proof.
     unfold lit at 1 2 3, re_lit. cbn [app]. rewrite peekz_0, peekz_1. cbn [rbind].
     change (61 =? 47) with false. cbv iota. cbn [rbind]. change (61 =? 61) with true. cbv iota. cbn [rbind].
     change (47 =? 47) with true. cbv iota. cbn [rbind]. change (2 =? 0) with false. cbv iota. exact Tail.
+Qed.
+
+Lemma regexp_at pre body flags r0 rest0 s k :
+  re_body false body -> Forall (fun c => tab_cont c = true) flags -> tab_cont r0 = false -> r0 < 192 ->
+  wfl (r0 :: rest0) ->
+  lbuf (jcur s) = pre ++ re_lit body flags ++ r0 :: rest0 ->
+  lpos (jcur s) = len pre + k -> k = 1 \/ (k = 2 /\ exists body', body = 61 :: body') ->
+  exists s2, regexp id_cont s = Ok ((RegExpToken, Some (re_lit body flags)), s2) /\
+    lpos (jcur s2) = len pre + len (re_lit body flags) /\ lstart (jcur s2) = lpos (jcur s2) /\
+    lbuf (jcur s2) = lbuf (jcur s).
+Proof.
+  intros Hb Hf Hr0 Hr1. apply regexp_at_gen; [assumption|]. intros fuel Hl. apply flags_loop; assumption.
 Qed.
 
 Lemma re_body_head body : re_body false body -> hd 0 body <> 47.
